@@ -294,6 +294,7 @@ def indent_text_cases(rng, n):
         cfg = fu.rand_base(rng, fu.INDENT_SYNTAXES)
         cfg = fu.with_options(cfg, {'output.newline': rng.choice(NEWLINES), 'output.indent': rng.choice(['\t', '  ', '']),
                                     'output.baseIndent': rng.choice(['', '', ' ', '\t\t'])})
+        cfg = bem_layer(rng, cfg, 0.1, abbr)
         out.append((abbr, cfg, {'explicit': True, 'groups': groups, 'distinct': True}))
     return out
 
@@ -427,7 +428,7 @@ def split_value_cases(rng, n):
         cfg['options'].pop('output.reverseAttributes', None)
         cos = fu.rand_cosmetic(rng, SPLIT_NAMES[:6])
         cos['output.newline'] = rng.choice(NEWLINES)
-        cfg = fu.with_options(cfg, cos)
+        cfg = bem_layer(rng, fu.with_options(cfg, cos), 0.1, abbr)
         out.append((abbr, cfg, {'explicit': True, 'groups': groups, 'distinct': True, 'split': True}))
     return out
 
@@ -636,7 +637,7 @@ def primary_field_cases(rng, n):
         cfg['options'].pop('output.reverseAttributes', None)
         cos = fu.rand_cosmetic(rng, PRIM_NAMES[:6])
         cos['output.newline'] = rng.choice(NEWLINES)
-        cfg = fu.with_options(cfg, cos)
+        cfg = bem_layer(rng, fu.with_options(cfg, cos), 0.15, abbr)
         meta = {'explicit': True, 'distinct': True, 'primary': True}
         if not (html and cfg['options'].get('comment.enabled')):
             # (with comments on, the html family repeats id / class -- fields included -- inside the comment: those runs are
@@ -718,6 +719,247 @@ def add_primary_fields(rng, st):
             el.attrs.insert(rng.randint(0, len(el.attrs)), (n, v, '"'))
 
 
+# ---------------------------------------------------------------- option layer: BEM class-name rewriting
+# The statement quantifies over configurations.  `bem.enabled` (documented option of emmet.config, default off) makes the
+# BEM addon rewrite the value of every class attribute (`-e` / `_m` short notation -> block__e / block_m, separators from
+# bem.element / bem.modifier).  It changes the NAMES inside a class value, never which values exist: every expected
+# structure of the streams of this file holds unchanged, so the layer is put on a share of the cases of every stream.
+BEM_LAYER_ON = True
+BEM_SEPARATORS = [{}, {}, {}, {'bem.element': '-e-'}, {'bem.modifier': '--'}, {'bem.element': '__', 'bem.modifier': '_'}]
+
+
+# bem.enabled x a class value that carries explicit fields: OFF.  On the UNCHANGED library the BEM addon rebuilds the class
+# value from the NAMES of its tokens (bem.py stringify_value / update_class), so the fields of that value never reach
+# output.field: expand('span[class="c ${1:k}"]', bem.enabled) gives class="c k" (reported in the final message of branch
+# v2-szc13).  Switch on once that is settled; every stream then keeps its expected structure under the layer.
+BEM_WITH_CLASS_FIELDS_ON = False
+CLASS_FIELD_RE = re.compile(r'''class=(?:"[^"]*|'[^']*|[^\s\]"']*)\$\{''')
+
+
+def bem_layer(rng, cfg, p, abbr):
+    if not BEM_LAYER_ON or rng.random() >= p:
+        return cfg
+    if not BEM_WITH_CLASS_FIELDS_ON and CLASS_FIELD_RE.search(abbr):
+        return cfg
+    extra = {'bem.enabled': True}
+    extra.update(rng.choice(BEM_SEPARATORS))
+    return fu.with_options(cfg, extra)
+
+
+# ---------------------------------------------------------------- as-you-type input: the abbreviation is not finished yet
+# Editors expand (preview) the abbreviation while it is being typed, so every PREFIX of an abbreviation is an input.  The
+# abbreviation parser is lenient about the end of input (documented by the accepted forms below, all of which the library
+# turns into output without an error; forms it rejects -- an open quote, an open `${` -- come back as errors and are C07's
+# business): the end of input closes an open attribute list, an open `{` expression value, an open `{` text and an open `(`.
+# What the half-typed last element consists of is known to the generator, so the expected tabstop structure is built
+# alongside from what the property says (one tabstop per empty attribute value -- a class / id whose name is not typed
+# yet is an attribute with an empty value -- and per empty leaf; explicit fields of one value keep their relative numbering):
+#   name.   name#   name#.   name.a.   .   (class / id mark typed, name not yet)
+#   name[   name[title   name[title=   name[a=b    name[a=b c   (attribute list open; last attribute with / without `=`)
+#   name[on={   name[on={expr   name[on={${2:h}(${1:a}     (expression value open, 0..3 explicit fields in it)
+#   name[data-f=u${2:w}${1}                                (unquoted value with fields, list open)
+#   name{   name{te   name{${2:a} x ${1}                   (text open, 0..3 explicit fields in it)
+#   name>   name+   name^   name>(   name+(                 (operator typed, nothing after it)    (whole thing) in an open `(`
+# each after 0..n complete siblings / below a parent (units of the split / id-class streams with their own tabstops).
+# `name*` (implicit repeater typed, count not yet) is kept OFF: see HALF_TYPED_BARE_REPEAT_ON.
+HALF_TYPED_ON = True
+# `div*`: on the UNCHANGED library the leaf comes out as <div></div> with no tabstop at all (reported in the final message of
+# branch v2-szc13); switch on once that is settled -- the stream then expects the leaf's tabstop.
+HALF_TYPED_BARE_REPEAT_ON = False
+HALF_NAMES = ['div', 'p', 'span', 'section', 'em', 'li', 'td', 'ul', 'custom', 'x-y', 'nav']
+HALF_DONE_ATTRS = [('title', [[0]]), ('alt=""', [[0]]), ('data-v=v', []), ('data-f=${3}${1:v}', [[3, 1]]), ('lang="u v"', []),
+                   ('bind={e}', []), ('model={${2:m}.${1}}', [[2, 1]]), ("data-e=''", [[0]])]
+HALF_OPEN_NAMES = ['href', 'for', 'onClick', 'data-x', 'on']
+HALF_EXPR_LITERALS = ['', '', 'x', 'fn(', 'a.b', ' + ', 'this.', '(', ', ', 'e => ']
+HALF_EXPR_PLACEHOLDERS = ['', '', 'h', 'handler', 'arg', 'a b']
+HALF_TEXT_LITERALS = ['', '', 'x', 'a ', ' b ', ' - ', 'w\n', 'one two']
+
+
+def half_fields(rng, nfields, literals, placeholders, lead=None):
+    """(text, indices in written order): literals and nfields explicit fields with pairwise different indices; when the
+    text holds fields it may END in a field (nothing typed after it yet)."""
+    idx = rng.sample(range(0, 7), nfields)
+    s = rng.choice(literals) if lead is None else lead
+    for k, i in enumerate(idx):
+        ph = rng.choice(placeholders)
+        s += '${%d:%s}' % (i, ph) if ph else '${%d}' % i
+        if k < len(idx) - 1 or rng.random() < 0.5:
+            s += rng.choice(literals)
+    return s, idx
+
+
+def half_element(rng, html):
+    """(abbreviation, groups or None, certain): the half-typed last element.  groups None = the expected structure is
+    not stated here (pug/haml/slim with a class / id mark whose name is missing: these languages have no attribute to
+    hold the empty value; that form is the listed finding about empty id / class values)."""
+    name = rng.choice(HALF_NAMES)
+    kind = rng.choice(['mark', 'mark', 'mark', 'attr-open', 'attr-open', 'attr-name', 'attr-name', 'attr-eq', 'expr', 'expr', 'expr',
+                       'expr', 'unquoted', 'text', 'text', 'text', 'op', 'op', 'quote', 'bare-repeat'])
+    if kind == 'bare-repeat' and not HALF_TYPED_BARE_REPEAT_ON:
+        kind = 'expr'
+    groups = []
+    known = True
+    if kind == 'mark':
+        form = rng.choice(['.', '.', '.', '#', '#.', '.a.', '#i.', '.a#', '.a.b-c.', 'nameless.', 'nameless#'])
+        if form.startswith('nameless'):
+            name, form = '', form[len('nameless'):]
+        abbr = name + form
+        if form in ('.', '#'):
+            groups = [[0]]
+        elif form == '#.':
+            groups = [[0], [0]]
+        elif form == '#i.':
+            groups = [[0]]
+        elif form == '.a#':
+            groups = [[0]]
+        else:
+            groups = []                       # `.a.`: the class value is `a`, the second name is not typed yet
+        if not html and form != '.a.' and form != '.a.b-c.':
+            known = False
+        return abbr, groups + [[0]], known
+    if kind == 'op':
+        abbr = name
+        if rng.random() < 0.4:
+            abbr += '[title]'
+            groups.append([0])
+        return abbr + rng.choice(['>', '+', '^', '>(', '+(', '>', '+']), groups + [[0]], True
+    if kind == 'bare-repeat':
+        return name + '*', [[0]], True
+    short = rng.choice(['', '', '', '.a', '#i', '.a.b-c'])
+    if kind == 'text':
+        abbr = name + short
+        if rng.random() < 0.35:
+            abbr += '[title]'
+            groups.append([0])
+        text, f = half_fields(rng, rng.choice([0, 0, 1, 2, 2, 3]), HALF_TEXT_LITERALS, HALF_EXPR_PLACEHOLDERS)
+        if f:
+            groups.append(f)
+        elif text == '':
+            groups.append([0])                # `name{` : nothing written yet, the leaf is empty
+        return abbr + '{' + text, groups, True
+    # attribute list open
+    done = rng.sample(HALF_DONE_ATTRS, rng.choice([0, 0, 1, 1, 2]))
+    parts = [a for a, _ in done]
+    for _, ag in done:
+        groups += ag
+    open_name = rng.choice(HALF_OPEN_NAMES)
+    if kind == 'attr-open':
+        last = '' if (not parts or rng.random() < 0.5) else None       # `[` / `[a=b ` (blank typed) / `[a=b`
+        if last is not None:
+            parts.append(last)
+    elif kind == 'attr-name':
+        parts.append(open_name)
+        groups.append([0])
+    elif kind == 'attr-eq':
+        parts.append(open_name + '=')
+        groups.append([0])
+    elif kind == 'quote':                     # rejected by the parser (open quote): error, nothing to judge; model tie only
+        parts.append(open_name + rng.choice(['="', "='", '="va', '="${1:v} ']))
+        groups.append([0])
+    elif kind == 'unquoted':
+        v, f = half_fields(rng, rng.choice([1, 2, 2, 3]), ['', '', 'u', 'v-w', 'x1'], ['', '', 'k', 'ph'])
+        parts.append(open_name + '=' + v)
+        groups.append(f)
+    else:                                     # expression value open
+        v, f = half_fields(rng, rng.choice([0, 1, 1, 2, 2, 2, 3]), HALF_EXPR_LITERALS, HALF_EXPR_PLACEHOLDERS)
+        parts.append(open_name + '={' + v)
+        if f:
+            groups.append(f)
+        elif v == '':
+            groups.append([0])                # `on={` : an empty expression value
+    return name + short + '[' + ' '.join(parts), groups + [[0]], True
+
+
+def half_typed_cases(rng, n):
+    out = []
+    for _ in range(n):
+        html = rng.random() < 0.7
+        last, groups, known = half_element(rng, html)
+        from_prim = False
+        r = rng.random()
+        if r < 0.3:
+            abbr = last
+        elif r < 0.5:                                     # below a parent
+            abbr = '%s>%s' % (rng.choice(HALF_NAMES), last)
+        elif r < 0.65:                                    # below a parent with class names (BEM block)
+            abbr = '%s.%s>%s' % (rng.choice(HALF_NAMES), rng.choice(['nav', 'block_mod', 'b.c', 'a-b']), last)
+        elif r < 0.85:                                    # after complete siblings that take tabstops
+            pre, pg = split_kids(rng, 2, html)
+            abbr = '%s+%s' % (pre if '>' not in pre else '(%s)' % pre, last)
+            groups = pg + groups
+        else:                                             # after / below elements with fields in id / class values
+            pre, pg = prim_seq(rng, 1, html)
+            abbr = '%s+%s' % (pre if '>' not in pre else '(%s)' % pre, last)
+            groups = pg + groups
+            from_prim = True
+        if rng.random() < 0.12:
+            abbr = '(' + abbr                             # the whole thing inside a group that is not closed yet
+        syn = rng.choice(fu.HTML_SYNTAXES if html else fu.INDENT_SYNTAXES)
+        cfg = fu.rand_base(rng, [syn])
+        cfg['options'].pop('output.reverseAttributes', None)
+        cos = fu.rand_cosmetic(rng, HALF_NAMES[:6])
+        cos['output.newline'] = rng.choice(NEWLINES)
+        cfg = bem_layer(rng, fu.with_options(cfg, cos), 0.5, abbr)
+        meta = {'explicit': fu.has_explicit_field(abbr), 'distinct': True, 'half': True}
+        if known and not (html and from_prim and cfg['options'].get('comment.enabled')):
+            # (as in primary_field_cases: with comments on, the html family repeats id / class -- fields included -- inside
+            # the comment; those runs are held to "all indices differ" only)
+            meta['groups'] = groups
+        out.append((abbr, cfg, meta))
+    return out
+
+
+def half_typed_grid():
+    """Small complete grid: every half-typed form of the list above once per family x BEM off / on, alone and as the
+    child of `ul.nav`."""
+    out = []
+    forms = [('[on={${2:h}(${1:a}', [[2, 1], [0]], True), ('[on={${2:h}', [[2], [0]], True), ('[on={${1}${3}x', [[1, 3], [0]], True),
+             ('[title on={f(${1:a}, ${0}', [[0], [1, 0], [0]], True), ('[d=u${2:w}${1}', [[2, 1], [0]], True),
+             ('{${2:a} x ${1}', [[2, 1]], True), ('[title]{${1}', [[0], [1]], True),
+             ('.', [[0], [0]], False), ('#', [[0], [0]], False), ('#.', [[0], [0], [0]], False), ('.a.', [[0]], True),
+             ('[', [[0]], True), ('[title', [[0], [0]], True), ('[title=', [[0], [0]], True), ('[a=b ', [[0]], True),
+             ('[a=b c', [[0], [0]], True), ('[on={', [[0], [0]], True), ('[on={ex', [[0]], True),
+             ('{', [[0]], True), ('{te', [], True), ('>', [[0]], True), ('+', [[0]], True), ('^', [[0]], True), ('>(', [[0]], True)]
+    for fi, (tail, groups, indent_known) in enumerate(forms):
+        for si, syn in enumerate(('html', 'pug', 'jsx', 'slim', 'xml', 'haml')):
+            html = syn in fu.HTML_SYNTAXES
+            for bem in (False, True):
+                for parent in (('', 'ul.nav>')[(fi + si // 2) % 2],):
+                    cfg = {'syntax': syn, 'options': {'bem.enabled': True}} if bem else {'syntax': syn}
+                    abbr = parent + 'li' + tail
+                    meta = {'explicit': fu.has_explicit_field(abbr), 'distinct': True, 'half': True}
+                    if html or indent_known:
+                        meta['groups'] = groups
+                    out.append((abbr, cfg, meta))
+    return out
+
+
+HALF_CUT_AFTER = '.#[={>+(^ }'
+
+
+def truncated_cases(rng, pool, n):
+    """Prefixes of the abbreviations of the other streams (every stream of this file contributes): cut after a class / id
+    mark, an opening bracket, `=`, an operator, a blank, a closed field -- or anywhere.  What the prefix means is not
+    reconstructed here: those runs are held to the part of the statement that needs no expected structure (positions of
+    every callback; without explicit fields tabstops 1..k in document order; every empty attribute value of the result
+    holds a tabstop; all indices differ) and go through the extracted model like every case."""
+    out = []
+    for _ in range(n):
+        abbr, cfg, meta = rng.choice(pool)
+        if len(abbr) < 2:
+            continue
+        cuts = [i for i in range(1, len(abbr)) if abbr[i - 1] in HALF_CUT_AFTER]
+        if cuts and rng.random() < 0.7:
+            cut = rng.choice(cuts)
+        else:
+            cut = rng.randint(1, len(abbr) - 1)
+        prefix = abbr[:cut]
+        c = bem_layer(rng, cfg, 0.4, abbr)
+        out.append((prefix, c, {'explicit': fu.has_explicit_field(prefix), 'distinct': bool(meta and meta.get('distinct')),
+                                'half': True, 'cut': True}))
+    return out
+
+
 def load_corpus():
     out = []
     for p in sorted(glob.glob(os.path.join(CORPUS, '*.json'))):
@@ -743,7 +985,7 @@ def make_case(rng):
     cfg = fu.rand_base(rng, [syn])
     cos = fu.rand_cosmetic(rng, sorted(set(re.findall(r'[a-z][a-z0-9:\-]*', abbr)))[:6])
     cos['output.newline'] = rng.choice(NEWLINES)
-    cfg = fu.with_options(cfg, cos)
+    cfg = bem_layer(rng, fu.with_options(cfg, cos), 0.12, abbr)
     o = cfg['options']
     # no value of the generator's pools (format_util FIELD_TEXTS / FIELD_ATTR_VALUES, the ten snippet names of
     # SNIPPET_NAMES: at most one field per value in snippets/html.json) mentions one index twice, so the property's
@@ -796,7 +1038,23 @@ def run(ctx):
         'empty leaf, children; html family = attributes in written order (with comment.enabled, where id / class are repeated in '
         'the comment: all indices differ). grid: 1 or 2 fields with indices from {0,1,2} in every order x {leaf, empty attribute '
         'after / before, text with field, child, sibling} x {class, id, shorthand+bracket class, class and id} over pug/haml/slim/html. '
-        'Not explored: id / class values WRITTEN empty ([class=""]) -- guarded off, see PRIMARY_EMPTY_VALUES_ON. '
+        'id / class values WRITTEN empty ([class=""]) are explored (PRIMARY_EMPTY_VALUES_ON; pug/haml/slim: listed finding). '
+        'Option layer bem.enabled (default separators and bem.element / bem.modifier variants) on 10-15% of the cases of every '
+        'markup stream, 50% of the half-typed stream, 40% of the prefix stream: the BEM addon rewrites names inside class values, '
+        'the expected structures are unchanged (NOT combined with class values that carry explicit fields: guarded off, see '
+        'BEM_WITH_CLASS_FIELDS_ON). '
+        'As-you-type input (abbreviation not finished; the parser closes what is open at the end of input): structured stream + '
+        'complete small grid (24 forms x html/pug/jsx/slim/xml/haml x BEM off/on, alternately alone / child of ul.nav) of a half-typed LAST '
+        'element -- class / id mark without name (name. name# name#. name.a. . #), attribute list open ([, [title, [title=, '
+        '[a=b , [a=b c after 0..2 complete attributes incl. empty / field-carrying ones), expression value open ([on={, [on={expr, '
+        '[on={${2:h}(${1:a} with 0..3 explicit fields of pairwise different indices, the value possibly ENDING in a field), unquoted '
+        'value with fields, open quote (rejected by the parser: model tie only), text open ({, {te, {${2:a} x ${1}), operator '
+        'typed with nothing after it (> + ^ >( +(), all optionally inside a `(` that is not closed -- alone, below a parent, below '
+        'a parent with BEM-style class names, after tabstop-taking siblings of the split / id-class streams; expected structure '
+        'built alongside (an id / class mark without name = an attribute with an empty value; pug/haml/slim: structure not '
+        'stated for that form, cf. the listed finding). `name*` (bare implicit repeater) guarded off: HALF_TYPED_BARE_REPEAT_ON. '
+        'Prefix stream: prefixes of abbreviations of ALL other markup streams, cut after . # [ = { > + ( ^ blank } or anywhere; '
+        'held to positions, 1..k without explicit fields, every empty attribute value of the result holds a tabstop, indices differ. '
         'The same cases go through the extracted model (event sequences compared). stylesheet: '
         'snippet sums x css/scss/sass/less/sss/stylus x newline/indent/baseIndent/between/after: positions oracle on the '
         'implementation. non-trivial = at least one field callback and three text callbacks; distinct by (abbreviation, config). '
@@ -874,6 +1132,18 @@ def run(ctx):
         cases.extend(prim)
         ctx.cov['id_class_values_with_fields_cases'] = len(prim)
         ctx.cov['id_class_values_written_empty'] = 'on' if PRIMARY_EMPTY_VALUES_ON else 'off (PRIMARY_EMPTY_VALUES_ON)'
+    if HALF_TYPED_ON:
+        pool = [c for c in cases if c[2] is not None]
+        hgrid = half_typed_grid()
+        cases.extend(hgrid)
+        half = half_typed_cases(rng, 800 if ctx.tier == 'quick' else 12000)
+        cases.extend(half)
+        cut = truncated_cases(rng, pool + half, 600 if ctx.tier == 'quick' else 10000)
+        cases.extend(cut)
+        ctx.cov['half_typed'] = {'grid': len(hgrid), 'structured_cases': len(half), 'prefixes_of_other_streams': len(cut),
+                                 'bare_repeat_form': 'on' if HALF_TYPED_BARE_REPEAT_ON else 'off (HALF_TYPED_BARE_REPEAT_ON)'}
+    ctx.cov['bem_layer'] = {'layer': 'on' if BEM_LAYER_ON else 'off (BEM_LAYER_ON)',
+                            'with_fields_in_class_values': 'on' if BEM_WITH_CLASS_FIELDS_ON else 'off (BEM_WITH_CLASS_FIELDS_ON)'}
     impl = run_cases(ctx, model, cases, 'C13', None, mode='events')
     for (abbr, cfg, meta), r in zip(cases, impl):
         bad = oracle(abbr, cfg, meta, r)
@@ -903,6 +1173,17 @@ def run(ctx):
                     'html-family' if cfg.get('syntax', 'html') in fu.HTML_SYNTAXES else 'indent-family'))
             if meta and meta.get('countable'):
                 ctx.cover('C13:tabstop-count-checked')
+            if cfg.get('options', {}).get('bem.enabled'):
+                ctx.cover('C13:bem-enabled')
+            if meta and meta.get('half'):
+                kind = 'prefix-of-other-stream' if meta.get('cut') else 'structured'
+                ctx.cover('C13:half-typed-%s' % kind)
+                if meta.get('groups') is not None:
+                    ctx.cover('C13:half-typed-structure-checked')
+                if cfg.get('options', {}).get('bem.enabled'):
+                    ctx.cover('C13:half-typed-bem-enabled')
+                m = re.search(r'(\.|#|\[|=|\{|>|\+|\^|\(|\})$', abbr)
+                ctx.cover('C13:half-typed-ends-in-%s' % (m.group(1) if m else 'other'))
             if any(e[0] == 'field' and '\n' in e[2] for e in r[2]):
                 ctx.cover('C13:placeholder-with-line-feed')
             if nf >= 1 and len(r[2]) - nf >= 3:
